@@ -762,8 +762,9 @@ impl ReCompiler {
                         quantifier_type = Some('*');
                     }
                     Some('{') => {
-                        // the lower bound is meaningless, the upper bound is not
-                        self.bracket_min = 0;
+                        // the upper bound matters, and so does whether the
+                        // term has to be entered at all
+                        self.bracket_min = self.bracket_min.min(1);
                     }
                     _ => {}
                 }
